@@ -16,15 +16,17 @@ Class == 32
 NameOf(i) == IF i = 0 \/ i \in t.un THEN <<>> ELSE <<96 + i>>
 StrTab == <<0>> \o [k \in 1..(2 * (NSym - 1)) |-> IF k % 2 = 1 THEN 96 + ((k + 1) \div 2) ELSE 0]   \* "\0a\0b\0c\0"
 NameOff(i) == IF i = 0 \/ i \in t.un THEN 0 ELSE 2 * i - 1
-SymEnt(i) == W4(NameOff(i)) \o W4(i) \o W4(0) \o <<0, 0>> \o W2(1)            \* Elf32_Sym
+\* unnamed symbols are typically STT_SECTION / STT_FILE symbols: st_info = t.info for them
+SymEnt(i) == W4(NameOff(i)) \o W4(i) \o W4(0) \o <<IF i \in t.un THEN t.info ELSE 0, 0>> \o W2(1)            \* Elf32_Sym
 RECURSIVE Cat(_, _)
 Cat(f, n) == IF n = 0 THEN <<>> ELSE Cat(f, n - 1) \o f[n]
 SymTab == Cat([i \in 1..NSym |-> SymEnt(i - 1)], NSym)
 
 Table(b, c) == W4(NBucket) \o W4(NSym) \o Cat([i \in 1..NBucket |-> W4(b[i])], NBucket) \o Cat([i \in 1..NSym |-> W4(c[i])], NSym)
 
-Init == t \in { [b |-> b, c |-> c, q |-> q, un |-> un] : b \in [1..NBucket -> 0..MaxCell], c \in [1..NSym -> 0..MaxCell],
-                                              q \in {<<97>>, <<98>>, <<122, 122>>, <<>>}, un \in Unnamed }
+Init == t \in { [b |-> b, c |-> c, q |-> q, un |-> un, info |-> nfo] : b \in [1..NBucket -> 0..MaxCell], c \in [1..NSym -> 0..MaxCell],
+                                              q \in {<<97>>, <<98>>, <<122, 122>>, <<>>}, un \in Unnamed, nfo \in {0, 3, 4} }
+        /\ (t.un = {} => t.info = 0)
 Next == UNCHANGED t
 
 Res == SysvFind(Class, Little, Table(t.b, t.c), SymTab, StrTab, t.q)
